@@ -427,3 +427,7 @@ _app("C07", "text", " Model._call and Model.call are translated on every run as 
      "(C07_generated_model_call_*).")
 _app("C07", "note", " Tie (T) for Model._call / call: pins are submodel = None at all call sites, __getitem__ = get_node, the check_xy head and copying return of call; in the call theorem the callees "
      "(with_state, _load_proxys, with_feedback, _clean_proxys) are read by the hand semantics of proofs/Gen_mcall_eq.v Part C (accepted input, initialised model); Model._run / run stay on tie (H).")
+_app("C03", "text", " link of ops.py is translated too (py2coq_ops v3; _check_all_nodes pinned by its text, the generated _link_1to1 lifted into py4): the generated link hands Model(...) exactly the node "
+     "and edge sets of the model's link_graph and raises TypeError for non-_Node / FrozenModel operands (C03_generated_link_is_model, _not_node, _frozen).")
+_app("C07", "text", " Model._run is re-translated from model.py on every run (tools/vlib/py2coq_mrun.py -> coq/gen/Gen_mrun.v) and proved equal to run_op on the sequence, rows written in step order "
+     "(C07_generated_model_run_is_run_steps, C07_generated_model_run_call_is_generated_call); Model.run stays on hand model + correspondence.")
